@@ -258,15 +258,8 @@ impl PartialEq for ListType {
                         .all(|(x, y)| x.eq_complex(y, &typecheck_flags))
             }
             (E::Open(t1), E::Open(t2)) => t1.eq_complex(t2, &typecheck_flags),
-            (E::Mixed(t1), E::Open(t2)) => {
-                // `self` is the expected type: every slot must accept the element type of the open list
-                for ty in t1 {
-                    if !ty.eq_complex(t2, &TypecheckFlags::<&ClassType>::classless()) {
-                        return false;
-                    }
-                }
-                true
-            }
+            // `self` is the expected type: a `[T...]` has no static length, so it is never known to have a fixed shape
+            (E::Mixed(_), E::Open(_)) => false,
             (E::Open(t2), E::Mixed(t1)) => {
                 for ty in t1 {
                     if !t2.eq_complex(ty, &TypecheckFlags::<&ClassType>::classless()) {
